@@ -459,6 +459,15 @@ class ConcreteExplorer(Explorer):
             _EXPLORER = prev
 
 
+class CInt(int):
+    """a model value handed out by a concrete replay: an ordinary int that also answers `.t` like a symbolic scalar"""
+    t = property(lambda self: z3.IntVal(int(self)))
+
+
+class CFloat(float):
+    t = property(lambda self: _t(float(self)))
+
+
 def concrete():
     e = _EXPLORER
     return e if getattr(e, "concrete", False) else None
@@ -735,7 +744,7 @@ class SymReal(_SymNum):
 def fresh_int(base, lo=None, hi=None):
     e = cur()
     if getattr(e, "concrete", False):
-        return e.value(e.fresh_name(base), "i", lo, None if hi is None else hi - 1)
+        return CInt(e.value(e.fresh_name(base), "i", lo, None if hi is None else hi - 1))
     v = z3.Int(e.fresh_name(base))
     if lo is not None:
         e.assume(v >= _t(lo))
@@ -746,7 +755,7 @@ def fresh_int(base, lo=None, hi=None):
 
 def fresh_real(base):
     if getattr(cur(), "concrete", False):
-        return cur().value(cur().fresh_name(base), "f")
+        return CFloat(cur().value(cur().fresh_name(base), "f"))
     return SymReal(z3.Real(cur().fresh_name(base)))
 
 
